@@ -123,6 +123,12 @@ def unsupported_case(case):
         r = roundtrip(e)
     except Exception:  # noqa: BLE001
         return {"ok": True, "nt": True, "out": "refused"}
+    # if the expression AS SYMPY HOLDS IT still contains a construct outside the supported set (sympy may have evaluated it away: Abs(2) = 2,
+    # cos(acos(x)) = x), a result of any kind is "translated to something else" - even a numerically close one such as pi -> 3.14159...
+    bad_nodes = [n for n in sympy.preorder_traversal(e) if isinstance(n, (sympy.NumberSymbol, sympy.log, sympy.Abs, sympy.acos, sympy.asin, sympy.atan, sympy.cosh, sympy.sinh,
+                                                                            sympy.Piecewise, sympy.Max, sympy.Min, sympy.Derivative, sympy.conjugate, sympy.re, sympy.im))]
+    if bad_nodes:
+        return {"ok": False, "msg": "%s contains the unsupported construct %s but was not refused: it came back as %s" % (e, bad_nodes[0], r), "sig": "unsupported:accepted-node"}
     for a in ASSIGN:
         v, w = value(e, a), value(sympy.sympify(r), a)
         if v is not None and (w is None or abs(w - v) > 1e-9 * max(1, abs(v))):
